@@ -5,3 +5,4 @@ pub mod disk;
 pub mod pool;
 pub mod chan;
 pub mod mem;
+pub mod dynf;
